@@ -536,7 +536,12 @@ async fn check_shard_map(keys: &[String]) -> bool {
 
 async fn put_manifest(obj: &PlanObjectStore, segments: Vec<SegmentInfo>, checkpoint: Option<CheckpointInfo>) -> Result<(), String> {
     let next_segment_id = segments.iter().map(|s| s.id + 1).max().unwrap_or(0).max(checkpoint.as_ref().map_or(0, |c| c.last_segment_id + 1));
-    let m = Manifest { version: 1 + segments.len() as u64, replica_id: NODE, segments, checkpoint, next_segment_id };
+    // field assignment, not a struct literal: compiles whether or not the manifest has further fields
+    let mut m = Manifest::new(NODE);
+    m.version = 1 + segments.len() as u64;
+    m.segments = segments;
+    m.checkpoint = checkpoint;
+    m.next_segment_id = next_segment_id;
     ManifestManager::new(obj.clone(), PREFIX).save(&m).await.map_err(|e| e.to_string())
 }
 
